@@ -6,7 +6,7 @@ import time
 from . import facts as F
 
 VERIF = F.VERIF
-EVID = os.path.join(VERIF, "evidence")
+EVID = os.environ.get("NFSA_EVIDENCE_DIR") or os.path.join(VERIF, "evidence")
 REPLAY = os.path.join(EVID, "replay")
 KNOWN = os.path.join(VERIF, "known_findings.json")
 
